@@ -948,7 +948,7 @@ def run(tier):
         # replay the first case of this cause alone (its own program), twice: reproducible and minimal
         c0, what0 = lst[0]
         alone = shape_replay(c0, work, fuel)
-        if alone != shape_replay(c0, work, fuel):
+        if alone.splitlines()[0] != shape_replay(c0, work, fuel).splitlines()[0]:
             raise common.HarnessError("case %s does not behave the same when replayed alone twice" % c0["desc"])
         listing = "".join("%s: %s\n" % (c["desc"], w) for c, w in lst)
         rep.violation("shape:" + key, {"program.nano": shape_program([c0]), "expected.txt": "\n".join(shape_expected([c0])) + "\n",
